@@ -304,6 +304,25 @@ func detGen(r *rand.Rand, tier string, n int, emit func(op string, tags ...strin
 			mk("short-last-block", sh, size, t, pick(r, g1LightEntropies), bs, 32, pick(r, []string{"exact", "none"}), 0, "1,2,3,4,8", "one/bs", 1)
 		}
 	}
+	// 1c. skipBlocks (the CLI's --skip): the copy-or-compress decision of every block, in particular of a
+	// short last block whose length is not a multiple of 16, must depend on the block alone - not on
+	// what an earlier block left in the task slot it lands in (hence not on jobs / partition).  Random
+	// tails of 200..700 bytes have an order-0 entropy near the decision threshold.
+	nskip := 40
+	if thorough {
+		nskip = 600
+	}
+	for i := 0; i < nskip; i++ {
+		bs := pick(r, []int{1024, 1024, 2048})
+		tail := 200 + r.Intn(500)
+		if tail%16 == 0 {
+			tail++
+		}
+		size := bs*(1+r.Intn(3)) + tail
+		sh := pick(r, []string{"random", "random", "mixedsafe"})
+		emit(fmt.Sprintf("det shape=%s size=%d dseed=%d t=%s e=%s bs=%d ck=%d hint=%s hl=0 j=1,2,3,4 wsplit=one/bs/rand sched=1 sseed=%d api=ctxskip%s",
+			sh, size, r.Intn(1<<30), pick(r, []string{"NONE", "NONE", "LZ", "RLT"}), pick(r, []string{"HUFFMAN", "ANS0", "FPAQ", "NONE"}), bs, pick(r, []int{0, 32}), pick(r, []string{"none", "exact"}), r.Intn(1<<30), pert), "family:skip-blocks")
+	}
 	// 2. every entropy codec (dataType-dependent chains in front), sampled J / partitions
 	reps = 1
 	if thorough {
@@ -395,7 +414,7 @@ func init() {
 	registerStream(&Stream{
 		Name: "det",
 		Rule: "same data and parameters compressed by the real Writer with J in {1,2,3,4,7,8,16,32,63,64} x write partitions {one,1,bs,bs-1,bs+1,rand,with empty writes} x (unperturbed + 3 schedules perturbed through io.VerifHook: random yields, reversed start order, long critical sections); " +
-			"every output must be byte-identical to the J=1 single-write reference (same hint); MIXED per-block content with more blocks than jobs, chains reading ctx[dataType] (TEXT, TEXT+LZ, RLT, LZ, PACK, EXE, MM, UTF, DNA), all 19 transforms, all 9 entropy codecs, ten CLI levels, random chains <= 8, hints none/exact/half/double/huge/n, header and headerless; " +
+			"every output must be byte-identical to the J=1 single-write reference (same hint); MIXED per-block content with more blocks than jobs, chains reading ctx[dataType] (TEXT, TEXT+LZ, RLT, LZ, PACK, EXE, MM, UTF, DNA), all 19 transforms, all 9 entropy codecs, ten CLI levels, random chains <= 8, hints none/exact/half/double/huge/n, header and headerless; family skip-blocks: ctx skipBlocks=true with near-threshold short last blocks; " +
 			"distinct_nontrivial = distinct (chain, entropy, shape, size-class, hint-class, J list, partition list) with >= 2 blocks and some J > 1",
 		Gen:  detGen,
 		Exec: detExec,
